@@ -393,6 +393,47 @@ def rule_lists(rep, repo):
                 "the package" % (c, qn), loc=um.loc(mq))
 
 
+def rule_fold_selection(rep, repo):
+  """R6: convert_to_folded_model is interpreted on a synthetic layer graph
+  (the graph library and the Keras model rebuild are stand-ins): a
+  convolution may be folded - and its BatchNormalization removed - only when
+  that BatchNormalization is its sole consumer; otherwise the other consumer
+  would receive the normalised instead of the raw convolution output."""
+  um = repo.module("qkeras.utils")
+  cf = um.functions.get("convert_to_folded_model")
+  unit = "%s::convert_to_folded_model" % um.relpath
+  loc = um.loc(cf)
+
+  from ..graphmock import harness
+  G, graph, qg, removed, topo = harness("Conv2D", "DepthwiseConv2D",
+                                        "BatchNormalization")
+  model = Mock("model", {"get_config": lambda pe, a, k: {},
+                         "inputs": ["in"]})
+  pe = PE(repo, module_overrides={um.name: {
+      "clone_model": lambda pe, a, k: model, "qgraph": qg,
+      "Model": lambda pe, a, k: Mock("new_model", {})}})
+  pe.opaque_ext = True
+  pe.ext_overrides = {"*.topological_sort": topo}
+  try:
+    r = pe.call(pe.lookup_global("convert_to_folded_model", um), [model], {})
+    folded = list(r[1])
+  except PyRaise as e:
+    rep.fail("R6", unit, "fold-selection-raises",
+             "convert_to_folded_model raises %s on the synthetic graph" % e,
+             loc=loc)
+    return
+  want_f = ["c2_only_bn", "dw3_only_bn"]
+  want_r = [5, 7]
+  rep.check(sorted(folded) == sorted(want_f), "R6", unit, "folded-layers",
+            "layers selected for folding: %s; only convolutions whose sole "
+            "consumer is a BatchNormalization may be folded: %s" %
+            (folded, want_f), loc=loc)
+  rep.check(sorted(removed) == want_r, "R6", unit, "removed-batchnorm-nodes",
+            "BatchNormalization nodes removed: %s (%s); expected %s" %
+            (removed, [G[i][0].attrs["name"] for i in removed if i in G],
+             want_r), loc=loc)
+
+
 def run(rep, repo, tier):
   rep.trusted.append("Keras backend convolutions are uninterpreted; "
                      "smart_cond with a python False takes the second arm")
@@ -402,6 +443,8 @@ def run(rep, repo, tier):
   rule_call(rep, repo)
   rule_unfold(rep, repo)
   rule_lists(rep, repo)
+  rule_fold_selection(rep, repo)
+  rep.require_instances("R6", 2)
   rep.require_instances("R1", 60)
   rep.require_instances("R2", 150)
   rep.require_instances("R4", 3)
